@@ -1,7 +1,7 @@
 """Just Cause 2: Multiplayer family (`games::jc2m::query_with_timeout`; GameSpy 3 in single-packet mode): how the
 generic property runners drive it."""
 
-FAMILY = dict(send_units=2, 
+FAMILY = dict(send_units=1,  # C13_jc2m_send_bound: the data request is paid for by the challenge reply
     name="jc2m", nargs=2, gen="jc2m", retries=1, port=0, decode_property="C07", entry="jc2m",
     describe=("JC2M: variables in random order with optional numplayers and extra variables, 0-100 players (empty and "
               "multi-byte names, numeric and textual steam ids, full ping range), arbitrary 11-byte split header, challenge "
